@@ -117,6 +117,101 @@ func protoSection(run *hx.Run, rng *hx.Rng) {
 		phs("random", 0, uint32(len(r)), r)
 	}
 
+	// ---- 1b. the peer loop with a slow protocol handler: sub-protocol message A, base-protocol messages handled inline by
+	// readLoop, then sub-protocol message B — all read from the wire before the handler consumes A's payload.
+	for vi, between := range [][]uint64{{p2p.VerifPingMsg}, {p2p.VerifPingMsg, p2p.VerifPingMsg}, {p2p.VerifPongMsg}, {p2p.VerifPingMsg, p2p.VerifPongMsg, 5}} {
+		for _, sz := range []int{1, 17, 100, 5000} {
+			full := fmt.Sprintf("p2p.Server.runPeer slow-handler between=%v size=%d", between, sz)
+			run.Current(full)
+			payA, payB := bytes.Repeat([]byte{0xA1}, sz), bytes.Repeat([]byte{0xB2}, sz)
+			pre, pre2, aes, mac := rng.Bytes(48), rng.Bytes(48), rng.Bytes(32), rng.Bytes(32)
+			out := hx.Guard(60*time.Second, func() string {
+				a, b := net.Pipe()
+				defer a.Close()
+				defer b.Close()
+				mine := p2p.VerifFrameRW(a, aes, mac, p2p.VerifKeccakMAC(pre), p2p.VerifKeccakMAC(pre2), false)
+				bRead := make(chan struct{})
+				got := make(chan []byte, 2)
+				done := make(chan string, 1)
+				go func() {
+					done <- hx.Safe(func() string {
+						p2p.VerifRunPeer(b, aes, mac, p2p.VerifKeccakMAC(pre2), p2p.VerifKeccakMAC(pre), false, 5, func(rw p2p.MsgReadWriter) error {
+							m1, err := rw.ReadMsg()
+							if err != nil {
+								return err
+							}
+							<-bRead // busy elsewhere until the read loop has taken B off the wire
+							p1, _ := ioutil.ReadAll(m1.Payload)
+							got <- p1
+							m2, err := rw.ReadMsg()
+							if err != nil {
+								return err
+							}
+							p2, _ := ioutil.ReadAll(m2.Payload)
+							got <- p2
+							return io.EOF
+						})
+						return "returned"
+					})
+				}()
+				go func() { // take whatever the peer sends (pongs, disconnect)
+					for {
+						m, err := mine.ReadMsg()
+						if err != nil {
+							return
+						}
+						io.Copy(ioutil.Discard, m.Payload)
+					}
+				}()
+				send := func(code uint64, pay []byte) bool {
+					return writeOne(mine, wmsg{code: code, size: uint32(len(pay)), payload: pay}) == "ok"
+				}
+				if !send(16, payA) {
+					return "write-failed"
+				}
+				for _, c := range between {
+					if !send(c, []byte{0xc0}) {
+						return "write-failed"
+					}
+				}
+				if !send(17, payB) { // returns once the peer's read loop has read the whole frame
+					return "write-failed"
+				}
+				close(bRead)
+				var g1, g2 []byte
+				select {
+				case g1 = <-got:
+				case <-time.After(30 * time.Second):
+					return "handler-never-got-A"
+				}
+				select {
+				case g2 = <-got:
+				case <-time.After(30 * time.Second):
+					return "handler-never-got-B"
+				}
+				a.Close()
+				<-done
+				if !bytes.Equal(g1, payA) {
+					return fmt.Sprintf("damaged: message A (%d x 0xA1) reached the handler as %s...", sz, hx.Hex(g1[:min(len(g1), 12)]))
+				}
+				if !bytes.Equal(g2, payB) {
+					return fmt.Sprintf("damaged: message B (%d x 0xB2) reached the handler as %s...", sz, hx.Hex(g2[:min(len(g2), 12)]))
+				}
+				return "intact"
+			})
+			run.Count("proto:slow-handler:" + strings.Fields(out)[0])
+			_ = vi
+			switch {
+			case strings.HasPrefix(out, "damaged"):
+				run.Violate("altered-delivery", "p2p.Peer.readLoop: payload of a delivered message changed before the handler consumed it", full, out)
+			case strings.HasPrefix(out, "panic"):
+				run.Violate("panic", "p2p.Server.runPeer slow-handler: "+out, full, out)
+			case out != "intact":
+				run.Violate("hang", "p2p.Server.runPeer slow-handler: "+out, full, "slow-handler session did not complete: "+out)
+			}
+		}
+	}
+
 	// ---- 2. the peer loop
 	reasons := []uint64{0, 1, 2, 3, 4, 5, 6, 7, 8, 9, 10, 11, 12, 13, 14, 15, 16, 17, 18, 19, 20, 31, 32, 127, 128, 255, 256, 65535, 1 << 31, 1 << 32, 1<<63 - 1, 1 << 63, 1<<63 + 1, ^uint64(0)}
 	type script struct {
